@@ -11,6 +11,8 @@ equality of whole trees.
 """
 import ast
 
+from zcstatic.report import AnalysisError
+
 from rules.common import crosscheck
 from zcstatic.model import src, walk_shallow
 
@@ -39,6 +41,8 @@ def run(ctx):
     run.rule("C02.R2", "defaults are copies and are injected only into empty "
              "slots", floor=3)
     run.rule("C02.R3", "no order-changing operation on slot containers")
+    run.rule("C02.R7", "schema defaults reach the key infos as written "
+             "(presence of the attribute, text of <default>, order)", floor=4)
     run.rule("C02.R5", "attribute name: explicit attribute (identifier, no "
              "reserved prefix) or key name through basic-key, '-'->'_', "
              "identifier")
@@ -115,6 +119,31 @@ def run(ctx):
               "none among %d calls of the matcher module (positive control "
               "matched)" % n_scanned, "order-changing operations present",
               nontrivial=False)
+
+    # R7: the schema's defaults reach the key infos as written -- an empty
+    # default="" is a default (presence, not truthiness), the text of a
+    # <default> element is kept, and a multikey collects them in order
+    BPq = "ZConfig.schema.BaseParser"
+    for name, what in (("start_key", "default attribute -> adddefault "
+                        "(presence test)"),
+                       ("end_key", "finish the key, computed defaults"),
+                       ("start_multikey", "no default attribute on a "
+                        "multikey"),
+                       ("end_multikey", "finish the multikey"),
+                       ("characters_default", "<default> text -> adddefault "
+                        "with its key")):
+        crosscheck(ctx, "C02.R7", BPq + "." + name, "ref_schema.py", name,
+                   BPq, what)
+    for q, ref, what in (
+            (INF + ".KeyInfo.add_valueinfo", "key_add_valueinfo",
+             "single default stored; keyed defaults by key"),
+            (INF + ".MultiKeyInfo.add_valueinfo", "multikey_add_valueinfo",
+             "defaults appended in order")):
+        try:
+            crosscheck(ctx, "C02.R7", q, "ref_info.py", ref,
+                       q.rsplit(".", 1)[0], what)
+        except AnalysisError:
+            pass
 
     # R5
     crosscheck(ctx, "C02.R5", "ZConfig.schema.BaseParser.get_name_info",
